@@ -451,7 +451,7 @@ def fam_faults(rng, n, dist):
             dist.add("fault:preceded-by-locally-refused-get")
         if a.connected:
             k = rng.choice(["close-after-reply", "reset-after-reply", "421", "garbage", "eof-instead-of-reply", "dead-data-port",
-                            "refused-open"])
+                            "refused-open", "close-eof", "close-garbage", "close-after-peer-gone", "close-after-peer-reset"])
             if k == "dead-data-port" and a.mode == "A":
                 k = "eof-instead-of-reply"          # (only a passive data connection can find nobody listening)
             dist.add("fault:" + k)
@@ -478,6 +478,15 @@ def fam_faults(rng, n, dist):
                 a.connected = a.b.connected = False
             elif k == "dead-data-port":
                 a.ls(None, listen="dead")
+                a.connected = a.b.connected = False
+            elif k in ("close-eof", "close-garbage"):
+                # the user closes the session and the QUIT exchange fails: the connection is released all the same
+                a.line(b"close")
+                a.b.cur.append(P.reaction([] if k == "close-eof" else [("G", b"\x16\x03\x01 garbage\r\n")], close_after=True))
+                a.connected = a.b.connected = False
+            elif k in ("close-after-peer-gone", "close-after-peer-reset"):
+                a.net_simple("noop", code=200, close_after=True, reset_after=(k == "close-after-peer-reset"))
+                a.line(b"close")                  # the peer has gone silently: QUIT cannot be exchanged
                 a.connected = a.b.connected = False
             else:
                 a.close()
